@@ -66,7 +66,10 @@ class InStream:
 
 def current_wakeup_fd():
     old = signal.set_wakeup_fd(-1)
-    signal.set_wakeup_fd(old)
+    try:
+        signal.set_wakeup_fd(old)
+    except (OSError, ValueError):
+        return ("closed", old)  # the installed wake-up descriptor is not open any more
     return old
 
 
@@ -725,8 +728,10 @@ def cross_thread_shard(args):
                                     nts = body.count("ts_trigger")
                                     if extra and not (nts and len(extra) <= 2 * nts * 3):
                                         fails.append(("C12:file_descriptors_leaked", "leaked %r" % (extra,)))
-                                    if s1["wakeup"] != s0["wakeup"] or (s1["wakeup"] not in (-1, None) and not alive(s1["wakeup"])):
-                                        fails.append(("C12:wakeup_fd_not_restored", "before %r after %r (open: %r)" % (s0["wakeup"], s1["wakeup"], alive(s1["wakeup"]) if s1["wakeup"] not in (-1, None) else None)))
+                                    if s1["wakeup"] != s0["wakeup"]:
+                                        fails.append(("C12:wakeup_fd_not_restored", "before %r after %r" % (s0["wakeup"], s1["wakeup"])))
+                                        if isinstance(s1["wakeup"], tuple):
+                                            break  # the process-wide wake-up descriptor is gone: nothing further in this case means anything
                                     if s1["sigint"] is not s0["sigint"]:
                                         fails.append(("C12:sigint_handler_not_restored", "another Input's context on the %s thread changed the handler" % st))
                                     if b.wakeup_read_fd is not None and not alive(b.wakeup_read_fd):
